@@ -994,15 +994,21 @@ func Set[T any](hasher fp.Hashable[T], v ...T) fp.Set[T] {
 }
 
 type setBuilder[V any] struct {
-	m *hamt[V, bool]
+	m     *hamt[V, bool]
+	built bool // Build has handed out r.m: it must not be modified in place any more
 }
 
 func (r *setBuilder[V]) Add(v V) *setBuilder[V] {
+	if r.built {
+		r.m = r.m.set(v, true, false)
+		return r
+	}
 	r.m.set(v, true, true)
 	return r
 }
 
 func (r *setBuilder[V]) Build() fp.Set[V] {
+	r.built = true
 	return fp.MakeSet[V](func() fp.SetMinimal[V] {
 		return SetMinimal(r.m.hasher)
 	}, set[V]{r.m})
